@@ -32,7 +32,7 @@ fn main() {
     let n = check.cases(600, 15_000);
     check.group(
         "four_way",
-        "case = generated continuity history (all operation kinds, failing ones, restarts, branch/handoff => several threads) with a broadcast subscriber from the start (re-subscribed after each restart); after EVERY operation live == raw log == full sidecar per thread, at the end also replay_events, replay_stream and a reopened store. non-trivial = >=3 frame types in the log; distinct by case hash",
+        "case = generated continuity history (all operation kinds, failing ones, restarts, branch/handoff => several threads) with a broadcast subscriber from the start (re-subscribed after each restart); in 40 % of the cases the full sidecar of a thread (or the whole cache directory) is deleted at a generated step while the store object lives on - from then on that thread's raw sidecar FILE is not compared, the replay_events answers still are; after EVERY operation live == raw log == full sidecar per thread, at the end also replay_events, replay_stream and a reopened store. non-trivial = >=3 frame types in the log; distinct by case hash",
         GroupOpts { cases: n, ..Default::default() },
         hist_case_strategy,
         run_history,
